@@ -11,6 +11,7 @@
 -/
 import BMV.Basm
 import BMV.BasmSem
+import BMV.BasmData
 import BMV.BasmText
 import BMV.Lines
 open BMV BMV.Bits BMV.Basm BMV.BasmText BMV.Lines
@@ -25,6 +26,8 @@ structure St where
   sim : Option (SecCtx × RefState) := none     -- section being interpreted, reference state
   simArch : Option Arch := none
   dead : Bool := false                            -- reference interpreter has no meaning from here on
+  implBm : Option BM := none                      -- the machine the harness dumped (for port / register counts when the model has none)
+  data : Option (DataSec × Nat) := none           -- ROM data section of the processor being interpreted, address of its first cell
   net : Option (List SecCtx × List (Topology.Bond × Topology.Bond) × List RefState × List Arch × List Nat) := none
                                                   -- whole machine: contexts, bonds, states, archs, address shifts
   netFirst : Bool := true
@@ -61,13 +64,23 @@ def step (st : St) (line : String) : St × List String :=
     match parseSource st.src with
     | none => ({ st with parsed := none }, ["R unsupported"])
     | some src =>
+      if !src.datas.isEmpty then
+        -- data sections are outside the model assembler: only the meaning is compared (SIM blocks), and the data cells
+        let dv := src.procs.filterMap fun c =>
+          ((src.cpData.find? (·.1 == c.name)).bind fun p => src.datas.reverse.find? (·.name == p.2)).map fun d =>
+            s!"DV {c.name} " ++ ",".intercalate (d.cells.map toString)
+        ({ st with parsed := some src, bm := none }, ["R unsupported", facts src] ++ dv)
+      else
       match assemble src st.fix with
       | .error e => ({ st with parsed := some src }, [s!"R err {errName e}", facts src])
       | .ok bm => ({ st with parsed := some src, bm := some bm },
                    [ "R ok", facts src ] ++ showBM bm ++ [s!"WF {if WfBM bm then 1 else 0} cf={if CfClosed bm then 1 else 0}"])
+  | "M" :: _ => ({ st with implBm := some (bmLine default line) }, [])
+  | "C" :: _ => ({ st with implBm := st.implBm.map fun b => bmLine b line }, [])
+  | "W" :: _ => ({ st with implBm := st.implBm.map fun b => bmLine b line }, [])
   | ["SIM", i] =>
     let k := nat! i
-    match st.parsed, st.bm with
+    match st.parsed, (match st.bm with | some b => some b | none => st.implBm) with
     | some src, some bm =>
       match src.procs[k]?, bm.cps[k]? with
       | some c, some cp =>
@@ -77,8 +90,11 @@ def step (st : St) (line : String) : St × List String :=
           match refInit ctx with
           | some r0 =>
             let shifted := st.fix && !(entryFirst sec.lines)
+            let dsec := (src.cpData.find? (·.1 == c.name)).bind fun p => src.datas.reverse.find? (·.name == p.2)
+            let codeLen := (sec.lines.filter fun l => !isEntry l).length
             ({ st with sim := some (ctx, r0), simArch := some cp.arch, dead := false,
-                       delta := if shifted then 1 else 0, pendingJump := shifted }, [line])
+                       delta := if shifted then 1 else 0, pendingJump := shifted,
+                       data := dsec.map fun d => (d, (if shifted then 1 else 0) + codeLen) }, [line])
           | none => ({ st with sim := none }, [line, "X noentry"])
         | none => ({ st with sim := none }, [line, "X nosection"])
       | _, _ => ({ st with sim := none }, [line, "X nocp"])
@@ -124,7 +140,7 @@ def step (st : St) (line : String) : St × List String :=
       let iv := bools ((kv rest "iv").getD "")
       let orr := bools ((kv rest "or").getD "")
       let env : Env := { inputs := fun k => ins.getD k 0, inValid := fun k => iv.getD k false, outRecv := fun k => orr.getD k false }
-      match refStep ctx env rs with
+      match (match st.data with | some (d, base) => refStepData ctx d base env rs | none => refStep ctx env rs) with
       | some rs' => ({ st with sim := some (ctx, rs') }, [line, dumpRef a ctx st.delta rs'])
       | none => ({ st with dead := true }, [line, "X undefined"])
     | _, _ => (st, [line])
